@@ -102,6 +102,35 @@ pub const FAILERS: [&str; 9] = [
     "(mod (X) (include *standard-cl-21*) (defun f (A) (let ((q 0)) (+ A q))) (f X) extra-form)",
 ];
 
+/// Hand-written programs that are known to be sensitive detectors: their bytes or symbols
+/// move when generated-name numbering, hash order, the integer mode or the macro set changes
+/// (shapes learnt from the defects of §12 and the seeded changes of §13 in DESIGN.md).
+pub const CANARIES: [&str; 15] = [
+    // several CSE candidates with the same insertion root (numbering / hash order)
+    "(mod (X Y) (include *standard-cl-23*) (defun F (A B) (list (sha256 (* A 17 A 19 A) B) (sha256 (* A 17 A 19 A) A) (concat (+ B 1000000 B 2000000 B) A) (concat (+ B 1000000 B 2000000 B) B) (* A 17 A 19 A) (+ B 1000000 B 2000000 B))) (F X Y))",
+    "(mod (X Y Z) (include *standard-cl-24*) (defun G (A B C) (if (> A B) (list (* (+ A B) (+ A B)) (- (* B C) (* B C)) (+ (- C A) (- C A))) (list (+ (* B C) (* B C)) (* (- C A) (- C A)) (- (+ A B) (+ A B))))) (G X Y Z))",
+    "(mod (X Y) (include *standard-cl-23.1*) (defun F (A B) (c (logxor (* A 3 B 5 A) 0) (c (logxor (* A 3 B 5 A) 1) (c (concat (+ B 7 A 9 B) 0x00) (c (concat (+ B 7 A 9 B) A) ()))))) (F X Y))",
+    // cl22: a let-bound name used inside `if` (generated names reach the output)
+    "(mod (X Y) (include *standard-cl-22*) (defun f (A B) (let ((v (+ A B)) (w (* A B))) (if A (c v w) (c w v)))) (f X Y))",
+    // integer zero in every spelling, under both integer-fix settings
+    "(mod (X) (include *standard-cl-21*) (defconstant Z 0) (defun f (A) (c 0 (c 0x00 (c 0x0000 (c Z (c (- A A) ())))))) (f X))",
+    "(mod (X) (include *standard-cl-23*) (defconstant Z 0x00) (defun f (A) (c 0 (c 0x00 (c 0x0000 (c Z (c 128 (c -129 ()))))))) (f X))",
+    "(mod (X) (include *standard-cl-24*) (defconstant Z 0x0000) (defun f (A) (c 0 (c 0x00 (c 0x0000 (c Z (c 0x0080 (c 255 ()))))))) (f X))",
+    // macro sets differ by strictness: if / list under non-strict and strict dialects
+    "(mod (X Y) (include *standard-cl-21*) (defun f (A B) (if A (list A B (if B 1 2)) (list B A))) (f X Y))",
+    "(mod (X Y) (include *standard-cl-23*) (defun f (A B) (if A (list A B (if B 1 2)) (list B A))) (f X Y))",
+    // interacting synthetic let-binding helpers (inline decisions) and a lambda
+    "(mod (X Y) (include *standard-cl-23*) (defun f (A B) (let ((p (* A B A)) (q (+ A B A))) (let* ((r (concat p q p)) (s (sha256 r q))) (c r (c s (c p (c q (c r (c s ()))))))))) (f X Y))",
+    "(mod (X Y) (include *standard-cl-23*) (defun f (A B) (a (lambda ((& A B) Z) (+ A B Z)) (list A))) (f X Y))",
+    // a helper that is only called with constants (folded away during code generation)
+    // next to several surviving non-inline functions: env layout follows helper order
+    "(mod (X Y) (include *standard-cl-23*) (defun scale (N) (* N 7)) (defun left (A B) (+ A (* 2 B))) (defun right (A B) (- A B)) (defun both (A B) (* (left A B) (right A B))) (+ (scale 3) (both X Y)))",
+    "(mod (X Y) (include *standard-cl-24*) (defun k1 (N) (sha256 N 1)) (defun p (A B) (c A (c B ()))) (defun q (A B) (c B (c A ()))) (defun r (A B) (c (p A B) (q A B))) (c (k1 5) (r X Y)))",
+    // two helpers that compile to identical code share one function hash in the symbol table
+    "(mod (X) (include *standard-cl-21*) (defun dbl (X) (* X 2)) (defun twice (AMOUNT) (* AMOUNT 2)) (+ (dbl X) (twice X)))",
+    "(mod (X) (include *standard-cl-23*) (defun dbl (X) (* X 2)) (defun twice (AMOUNT) (* AMOUNT 2)) (defun thrice (Q) (* Q 3)) (+ (dbl X) (twice X) (thrice X)))",
+];
+
 const WARMUP: [&str; 9] = [
     "(mod (X) (defun f (A) (+ A 1)) (defmacro m (A) (qq (+ 1 (unquote A)))) (list (f X) (m X)))",
     "(mod (X) (include *standard-cl-21*) (defun f (A) (let ((q (* A 2))) (+ A q))) (f X))",
@@ -569,6 +598,19 @@ pub fn generate(rng: &mut Rng, thorough: bool) -> Workload {
                 });
                 continue;
             }
+        }
+        if rng.chance(1, 6) {
+            let c = rng.below(CANARIES.len() as u64) as usize;
+            progs.push(Prog {
+                name: format!("canary{}.clsp", c),
+                text: CANARIES[c].to_string(),
+                search: vec![],
+                with_opts: rng.chance(1, 2),
+                corpus: false,
+                files: vec![],
+                cli: rng.chance(1, 5),
+            });
+            continue;
         }
         // dialect mix biased towards the optimising dialects, which do the most
         let d = *rng.pick(&[0usize, 1, 2, 3, 4, 4, 4, 4, 5, 5, 5, 6, 6, 6]);
@@ -1147,7 +1189,7 @@ impl Prop for C05 {
     fn init_process() {
         // force every lazy static of the compiler on a non-actor thread, so that no actor can
         // ever be preempted inside a `Once`
-        for (i, t) in WARMUP.iter().chain(FAILERS.iter()).enumerate() {
+        for (i, t) in WARMUP.iter().chain(FAILERS.iter()).chain(CANARIES.iter()).enumerate() {
             let mut a = Allocator::new();
             let mut s = HashMap::new();
             let _ = compile_text(t, "warm.clsp", &[], i % 2 == 0, &mut a, &mut s, None);
@@ -1238,7 +1280,7 @@ impl Prop for C05 {
     }
     fn runs_for_tier(thorough: bool) -> u64 {
         if thorough {
-            12_000
+            5_000
         } else {
             500
         }
